@@ -231,7 +231,10 @@ def energy_case(case):
         m = M(y.shape, dtype=np.dtype(dtype), rtol=dtype(1e-13), atol=dtype(1e-13))
         t = dtype(0)
         for i in range(N):
-            new_dt, (dT, dY) = m(rhs, t, y, {}, h)
+            try:
+                new_dt, (dT, dY) = m(rhs, t, y, {}, h)
+            except de.exception_types.FailedToMeetTolerances:
+                r.n += 1; r.add("shortened_or_failed"); return r
             if dT != h:
                 r.n += 1; r.add("shortened_or_failed"); return r
             y = y + dY; t = t + dT
